@@ -544,13 +544,30 @@ var hostileVarints = [][]byte{
 	{0x80}, // truncated
 	ref.AppendLong(nil, -2), ref.AppendLong(nil, 1<<40), ref.AppendLong(nil, 1<<28), ref.AppendLong(nil, 1<<24), ref.AppendLong(nil, -(1 << 40)),
 	{0xff, 0xff, 0xff, 0xff, 0xff, 0xff, 0xff, 0xff, 0xff, 0x02}, // overflows 64 bits
+	nil, nil, nil, nil, nil, // placeholders: v + 2^60, v + 2^61, v + 2^62, -(v + 2^62), v + 2^59: the true value plus a multiple of 2^64 / item size
 }
-var hostileNames = []string{"-1", "MinInt64", "0", "1", "v+1", "2^31", "2^32", "2^62-1", "MaxInt64", "11-byte varint", "truncated varint", "-2", "2^40", "2^28", "2^24", "-2^40", "overflowing varint"}
+var hostileNames = []string{"-1", "MinInt64", "0", "1", "v+1", "2^31", "2^32", "2^62-1", "MaxInt64", "11-byte varint", "truncated varint", "-2", "2^40", "2^28", "2^24", "-2^40", "overflowing varint",
+	"v+2^60", "v+2^61", "v+2^62", "-(v+2^62)", "v+2^59"}
 
 func replaceSpan(b []byte, sp ref.Span, which int) ([]byte, string) {
 	rep := hostileVarints[which]
-	if which == 4 {
+	abs := sp.Val
+	if abs < 0 {
+		abs = -abs
+	}
+	switch which {
+	case 4:
 		rep = ref.AppendLong(nil, sp.Val+1)
+	case 17:
+		rep = ref.AppendLong(nil, abs+1<<60)
+	case 18:
+		rep = ref.AppendLong(nil, abs+1<<61)
+	case 19:
+		rep = ref.AppendLong(nil, abs+1<<62)
+	case 20:
+		rep = ref.AppendLong(nil, -(abs + 1<<62))
+	case 21:
+		rep = ref.AppendLong(nil, abs+1<<59)
 	}
 	out := append([]byte{}, b[:sp.Start]...)
 	out = append(out, rep...)
@@ -898,11 +915,15 @@ func mutateBytes(t *rapid.T, valid []byte, spansOf func([]byte) []ref.Span) ([]b
 			pos = gen.Uniform(t, "insPos", len(valid))
 		}
 		out := append([]byte{}, valid[:pos]...)
-		out = append(out, hostileVarints[gen.Uniform(t, "hostile", len(hostileVarints))]...)
+		out = append(out, hostileVarints[gen.Uniform(t, "hostile", 17)]...)
 		return append(out, valid[pos:]...), "hostile varint inserted"
 	}
 	sp := spans[gen.Uniform(t, "span", len(spans))]
-	return replaceSpan(valid, sp, gen.Uniform(t, "hostile", len(hostileVarints)))
+	which := gen.Uniform(t, "hostile", len(hostileVarints))
+	if sp.Kind == "count" && gen.Uniform(t, "congruentCount", 2) == 0 {
+		which = 17 + gen.Uniform(t, "congruent", 5) // the items really are there: only a size computed from the count can tell
+	}
+	return replaceSpan(valid, sp, which)
 }
 
 // drawC06Pair: an arbitrary record schema (every kind, logical types, any
